@@ -494,9 +494,10 @@ def array_safe(ctx, qualname, par, opaque=()):
         p = _nf.unkey(key[1])
         fa = [a for a in _nf.atoms(p) if a[0] == "fn" and a[1].split("{")[0] in SHAPE_FNS]
         if fa and not _nf.depends(strip_shape(p), par) and _nf.depends(p, par):
-            return fa[0][1], p
+            return fa[0][1].split("{")[0], p
         return None
 
+    sized = []
     for path in it.run_function(qualname):
         scalar = False
         deps = []
@@ -507,9 +508,13 @@ def array_safe(ctx, qualname, par, opaque=()):
                 st = shape_term(key)
                 if st is not None:
                     name, p = st
-                    rest = _nf.sub(p, _nf.fn(name, _nf.sym(par)))
-                    if key[0] == "eq" and _nf.is_const(rest) and ((name == "ndim" and _nf.cval(rest) == 0) or (name in ("size", "len") and _nf.cval(rest) == -1)) and choice:
+                    rest = strip_shape(p)  # the constant the shape quantity is compared with (negated)
+                    if key[0] == "eq" and _nf.is_const(rest) and name == "ndim" and _nf.cval(rest) == 0 and choice:
                         scalar = True
+                    elif key[0] == "eq" and _nf.is_const(rest) and name in ("size", "len", ".size") and _nf.cval(rest) == -1:
+                        # `np.size(x) == 1` is not a scalar test: a one-element array is an array (it has a shape to keep and
+                        # is indexed by masks) - dispatching it to the scalar arm is a decision on the array's content
+                        sized.append(descr + " (dispatch on the element count)")
                     continue
                 p = _nf.unkey(key[1]) if key[0] != "cmp" else _nf.add(_nf.unkey(key[2]), _nf.unkey(key[3]))
                 if _nf.depends(strip_shape(p), par):
@@ -526,6 +531,7 @@ def array_safe(ctx, qualname, par, opaque=()):
                     deps.append(descr)
         if not scalar:
             bad += [d for d in deps if d not in bad]
+    bad += [d for d in sized if d not in bad]
     return not bad, bad
 
 
@@ -567,5 +573,98 @@ def check_bubble_threshold(ctx, rule, quals):
             not other, rule, q + ":branch threshold is the library's bubble point", f.where(),
             "every comparison of pressure with the bubble point uses the value pressure_bubblepoint_Standing returns for the function's own arguments (one rounding of p_b for the whole library)",
             signature="threshold " + "; ".join(sorted(other))[:140], thresholds=sorted(other)[:4],
+        )
+    return n
+
+
+def check_positional_order(ctx, rule, module_names):
+    """Shared rule S: a positional call that existing users can make still binds every value to the parameter it was
+    written for.  For every function (and dataclass constructor) of the pinned tree, each pinned parameter that is still
+    positional sits at its pinned position: new parameters come after all of them (or are keyword-only), none is inserted
+    in front, none is re-ordered.  (A re-routed positional value is accepted silently whenever the types agree - a
+    salinity taken for a standard temperature, a maximum initial pressure taken for a flag.)"""
+    import ast
+    import json
+    import os
+
+    path = os.path.join(os.path.dirname(os.path.dirname(os.path.abspath(__file__))), "signatures_pos.json")
+    if not os.path.exists(path):
+        raise AnalysisError("signatures_pos.json missing")
+    pinned = json.load(open(path))
+    n = 0
+    for mn in module_names:
+        m = ctx.P.modules.get(mn)
+        if m is None:
+            continue
+        moved = []
+        for q, want in pinned.items():
+            if not q.startswith(mn + "."):
+                continue
+            if q.endswith(".<fields>"):
+                ci = ctx.P.classes.get(q[: -len(".<fields>")])
+                if ci is None or ci.module.name != mn:
+                    continue
+                cur = []
+                for c in reversed(ci.mro()):
+                    for st in c.node.body:
+                        if isinstance(st, ast.AnnAssign) and isinstance(st.target, ast.Name):
+                            v = st.value
+                            no_init = isinstance(v, ast.Call) and ast.unparse(v.func).split(".")[-1] == "field" and any(k.arg == "init" and isinstance(k.value, ast.Constant) and k.value.value is False for k in v.keywords)
+                            kw_only = isinstance(v, ast.Call) and ast.unparse(v.func).split(".")[-1] == "field" and any(k.arg == "kw_only" and isinstance(k.value, ast.Constant) and k.value.value is True for k in v.keywords)
+                            if st.target.id in cur:
+                                continue
+                            if not no_init and not kw_only and "ClassVar" not in ast.unparse(st.annotation):
+                                cur.append(st.target.id)
+            else:
+                fi = ctx.P.functions.get(q)
+                if fi is None or fi.module.name != mn:
+                    continue
+                cur = fi.params
+            n += 1
+            for i, name in enumerate(cur):
+                if name in want and want.index(name) != i:
+                    moved.append(f"{q.split('.', 2)[-1] if q.count('.') > 2 else q}: `{name}` is positional argument {i + 1}, was {want.index(name) + 1}")
+        ctx.check(
+            not moved, rule, f"{mn}:positional parameters keep their places", m.relpath,
+            "every parameter of the pinned signatures that can still be passed by position is at its pinned position (new parameters are appended or keyword-only)",
+            signature="re-routed " + "; ".join(sorted(moved))[:160], moved=sorted(moved)[:8],
+        )
+    return n
+
+
+def check_super_forwarding(ctx, rule, module_names):
+    """An override that delegates to the method it overrides forwards what it accepts: every parameter the override shares
+    with the overridden method is handed on in the `super().method(...)` call (by position, by keyword, or through
+    *args / **kwargs).  A shared parameter that is accepted and not forwarded is silently replaced by the parent's default
+    (a frac-face schedule that is taken and dropped: constant drawdown is simulated instead)."""
+    import ast
+
+    n = 0
+    for mn in module_names:
+        m = ctx.P.modules.get(mn)
+        if m is None:
+            continue
+        dropped = []
+        for ci in m.classes.values():
+            for name, fi in ci.methods.items():
+                for call in ast.walk(fi.node):
+                    if not (isinstance(call, ast.Call) and isinstance(call.func, ast.Attribute) and call.func.attr == fi.name and isinstance(call.func.value, ast.Call) and isinstance(call.func.value.func, ast.Name) and call.func.value.func.id == "super"):
+                        continue
+                    parent = ci.lookup_after(ci, name) if hasattr(ci, "lookup_after") else None
+                    if parent is None:
+                        continue
+                    n += 1
+                    if any(isinstance(a, ast.Starred) for a in call.args) or any(k.arg is None for k in call.keywords):
+                        continue  # *args / **kwargs forwarded
+                    pparams = [p for p in parent.params if p not in ("self", "cls")]
+                    covered = set(pparams[: len(call.args)]) | {k.arg for k in call.keywords}
+                    mine = [p for p in fi.params + fi.kwonly if p not in ("self", "cls")]
+                    for p in mine:
+                        if p in pparams + parent.kwonly and p not in covered:
+                            dropped.append(f"{ci.name}.{name}: `{p}` is accepted but not passed to super().{name}(...) at line {call.lineno}")
+        ctx.check(
+            not dropped, rule, f"{mn}:overrides forward what they accept", m.relpath,
+            "an override that delegates to the overridden method passes on every parameter the two share",
+            signature="dropped " + "; ".join(sorted(dropped))[:160], dropped=sorted(dropped)[:6],
         )
     return n
